@@ -1,8 +1,10 @@
 """A deliberately dumb simulated inverter: a register file with Modbus function 3/6/16 semantics, refused
 address ranges (exception 2) and the AA55 command set used by es.py.
 
-NOT trusted: every request/response pair it serves is part of the recorded trace and is recomputed by
-spec/Registers.tla (a simulator bug shows up as HARNESS-MISMATCH, never as a verdict about the library).
+NOT trusted: it keeps a log of its configuration, of every request / response pair it serves and of every change the
+harness makes behind the library's back (oplog); harness/checks_sim.py has these logs validated by
+spec/TraceRegisters.tla against the model spec/Registers.tla (a difference is a machinery failure of the check that
+used the simulator, never a verdict about the library).
 """
 from __future__ import annotations
 
@@ -23,6 +25,11 @@ class SimInverter:
         self.default = default
         self.log: list[tuple[bytes, bytes | None]] = []
         self.exc_code = 2
+        # what TraceRegisters.tla replays: the configuration at creation, then the operations in order
+        self.start = {"fr": fr, "default": default, "init": sorted(self.regs.items()),
+                      "refused": [list(x) for x in self.refused], "silent": [list(x) for x in self.silent],
+                      "aa55": {k: (bytes(v) if isinstance(v, (bytes, bytearray, list)) else v) for k, v in self.aa55.items()}}
+        self.oplog: list[tuple] = []
 
     # -- register file ------------------------------------------------------------------------
     def get(self, a: int) -> int:
@@ -45,7 +52,27 @@ class SimInverter:
     def handle(self, req: bytes) -> bytes | None:
         resp = self._handle(req)
         self.log.append((req, resp))
+        self.oplog.append(("req", bytes(req), None if resp is None else bytes(resp)))
         return resp
+
+    # -- changes made by the harness (the world behind the library's back) ---------------------
+    def poke(self, a: int, v: int) -> None:
+        self.set(a, v)
+        self.oplog.append(("poke", a & 0xFFFF, v & 0xFFFF))
+
+    def reconfigure(self, refused=None, silent=None) -> None:
+        if refused is not None:
+            self.refused = [tuple(x) for x in refused]
+        if silent is not None:
+            self.silent = [tuple(x) for x in silent]
+        self.oplog.append(("cfg", [list(x) for x in self.refused], [list(x) for x in self.silent]))
+
+    def set_blocks(self, blocks: dict) -> None:
+        self.aa55.update({k: bytes(v) for k, v in blocks.items()})
+        self.oplog.append(("aa55", {k: bytes(v) for k, v in blocks.items()}))
+
+    def export_log(self) -> dict:
+        return dict(self.start, ops=list(self.oplog))
 
     def _handle(self, req: bytes) -> bytes | None:
         if req[:4] == b"\xaa\x55\xc0\x7f":
